@@ -178,7 +178,7 @@ pub open spec fn tok_is(i: AssetInfo, who: Seq<char>) -> bool { i matches AssetI
 //%%rewrite #1 /for pool in pools\.iter\(\)/ => for pool in it: pools.iter() ## name the loop's ghost iterator so the invariant can mention its position
 //%%sig
     ensures
-        /*[C02,C01,C03,C14 hook.swap.amount]*/ decode::<Cw20HookMsg>(cw20_msg.msg) matches Ok(Cw20HookMsg::Swap { offer_asset, belief_price, max_spread, to }) ==> r is Ok ==>
+        /*[C02,C01,C03,C14,C12 hook.swap.amount]*/ decode::<Cw20HookMsg>(cw20_msg.msg) matches Ok(Cw20HookMsg::Swap { offer_asset, belief_price, max_spread, to }) ==> r is Ok ==>
             offer_asset.amount == cw20_msg.amount,
         /*[C02,C14 hook.swap.sender-is-pool-token]*/ decode::<Cw20HookMsg>(cw20_msg.msg) matches Ok(Cw20HookMsg::Swap { offer_asset, belief_price, max_spread, to }) ==> r is Ok ==>
             old(deps.storage).pair_info is Some && exists|i0: AssetInfo, i1: AssetInfo| #![trigger raw_of(i0, old(deps.storage).pair_info->Some_0.asset_infos[0]), raw_of(i1, old(deps.storage).pair_info->Some_0.asset_infos[1])]
@@ -215,8 +215,8 @@ pub open spec fn tok_is(i: AssetInfo, who: Seq<char>) -> bool { i matches AssetI
 //%fn contracts/halo-pair/src/contract.rs | - | execute
 //%%sig
     ensures
-        /*[C02,C01,C03 exec.swap.native-only]*/ msg matches ExecuteMsg::Swap { offer_asset, belief_price, max_spread, to } ==> r is Ok ==> offer_asset.info is NativeToken,
-        /*[C02,C09,C01,C03 exec.swap.native-funds]*/ msg matches ExecuteMsg::Swap { offer_asset, belief_price, max_spread, to } ==> r is Ok ==>
+        /*[C02,C01,C03,C14 exec.swap.native-only]*/ msg matches ExecuteMsg::Swap { offer_asset, belief_price, max_spread, to } ==> r is Ok ==> offer_asset.info is NativeToken,
+        /*[C02,C09,C01,C03,C12 exec.swap.native-funds]*/ msg matches ExecuteMsg::Swap { offer_asset, belief_price, max_spread, to } ==> r is Ok ==>
             (offer_asset.info matches AssetInfo::NativeToken { denom } ==> offer_asset.amount.0 as nat == attached(info.funds@, denom@)),
         /*[C02,C01,C03,C07,C12 exec.swap.settles]*/ msg matches ExecuteMsg::Swap { offer_asset, belief_price, max_spread, to } ==> r is Ok ==>
             old(deps.storage).pair_info is Some && old(deps.storage).commission is Some && ({
